@@ -1,0 +1,24 @@
+//go:build verif
+
+// Contracts for the verification harness in /verif (comment-only; this file
+// contains no executable code and is compiled only with the verif tag).
+
+package composefs
+
+// ---- C19: the root directory is listed in one deterministic order ---------------
+//
+// sortedKeys(names, r): names is the sorted list of the keys of r.fs.mounts. It
+// is what maps.Keys followed by slices.Sort produces (assumed at those two
+// calls) and what every page must be cut from: a listing order that changed
+// between two Readdir calls would lose or repeat entries.
+//@ declare keysOf(names []string, r *root) bool
+//@ declare sortedKeys(names []string, r *root) bool
+//
+//@ func (*root).Readdir
+//@   modifies *
+//@   at golang.org/x/exp/maps.Keys* assume keysOf(ret0, r) && len(ret0) <= 1000000000
+//@   at golang.org/x/exp/slices.Sort* assume keysOf(old(arg0), r) ==> sortedKeys(arg0, r)
+//@   at Readdir requires[C19] @pages-are-cut-from-the-sorted-key-list sortedKeys(arg2, r) && arg0 == offset && arg1 == count
+//@   at File.GetAttr presume own(recv) != 3
+//@   loop 0 invariant[C19] sortedKeys(names, r)
+//@   maypanic
